@@ -10,7 +10,7 @@ from lib.replay import drv_binary
 GO_BINS = ["/usr/lib/go-1.23/bin/gofmt", "/usr/lib/go-1.23/pkg/tool/linux_amd64/link"]
 
 
-def reloc(ctx, binary, env, tag, test="^TestVerifRelocSweep$", minjudged=100):
+def reloc(ctx, binary, env, tag, test="^TestVerifRelocSweep$", minjudged=100, only=None):
     out = ctx.path("reloc.ndjson")
     rc, o = ctx.run_bin(binary, test, env=dict(env, VERIF_OUT=out, VERIF_QUIET="1"), timeout=1200)
     if rc != 0 or not os.path.exists(out):
@@ -30,6 +30,8 @@ def reloc(ctx, binary, env, tag, test="^TestVerifRelocSweep$", minjudged=100):
             tally[k] = tally.get(k, 0) + v
         for what, idx in summ[0]["bad"]:
             e = json.loads(part[idx - 1])
+            if only is not None and what not in only:
+                continue
             ctx.violation("relocation of %s (%d bytes) into a placeholder at origin%+d: %s; function starts [%s], placeholder afterwards [%s] %s" % (
                 e["name"], e["size"], -e["d"], what, " ".join("%02x" % b for b in e["fn"][:28]),
                 " ".join("%02x" % b for b in e["out"][:40]), e["err"]),
@@ -83,7 +85,7 @@ def origin_depth(ctx):
     ctx.note("origin depth sweep: %d calls, %d explained only by the F5 deviation" % (len(evs), nf5))
 
 
-def streams(ctx, binary):
+def streams(ctx, binary, only=None):
     """spec -> code: abstract instruction streams enumerated by TLC (Gen_Reloc.tla), synthesised and relocated for real"""
     import random
     g = ctx.tlc("Gen_Reloc", "Gen_Reloc.cfg", workers=1, timeout=1500, tag="abstract prologue streams")
@@ -95,7 +97,7 @@ def streams(ctx, binary):
         ss = ss[:4000]
     gen = ctx.path("streams.ndjson")
     vlib.write_ndjson(gen, ss)
-    reloc(ctx, binary, {"VERIF_GEN": gen}, "synthesised streams", test="^TestVerifRelocStreams$", minjudged=300)
+    reloc(ctx, binary, {"VERIF_GEN": gen}, "synthesised streams", test="^TestVerifRelocStreams$", minjudged=300, only=only)
 
 
 def f5_reuse(ro):
